@@ -148,10 +148,23 @@ def run(chk):
             elif l.startswith("pkt rc="):
                 dist["pkt_rejected"] += 1
         chk.note_case("|".join(r["c"][1:6])[:300], acc, {"tag": tag, "ops": [o[:100] for o in r["ops"][2:6]], "answer": [l[:120] for l in r["c"][1:8]]})
+    # heap budget: the same cases through the counting allocator — whatever was refused, the clear calls must return every block
+    from . import c13 as C13
+    leak_cases = [[c[0], "live"] + [o for o in c[1:] if o != "live"] + ["clear", "live", "clear", "live"] for c in (corpus + cases)]
+    lres = vlib.run_harness_only("c02", leak_cases, variant="cnt", timeout=1200)
+    nleak = 0
+    for r in lres:
+        if r["c"] is None:
+            continue
+        nleak += 1
+        o = C13.oracle("c02", r["ops"], r["c"])
+        if o:
+            ofail.append((dict(r, m=None), "heap: " + o))
+    chk.coverage["leak_checked_cases"] = nleak
     chk.coverage["rule"] = ("type-directed set-up generator (ordered/sparse/single-entry/lattice/explicit books, valid and invalid Huffman trees, floor 0/1, residue 0/1/2, "
                             "submaps, coupling, 1-5 modes, block sizes 64..8192, 1..255 channels) + boundary stream (one field set to 0/max/half/±1, cut at a field boundary) + random bytes; "
                             "header order permutations/duplicates/wrong b_o_s; init (twice), random/structured packets, trackonly, restart, halfrate, clear twice. "
-                            "Every return code, the full parse dump, window flags and sample counts are compared with the Lean model; everything runs under ASan+UBSan. "
+                            "Every return code, the full parse dump, window flags and sample counts are compared with the Lean model; everything runs under ASan+UBSan; the same cases run through a counting allocator and the clear calls must return every block whatever was refused. "
                             "distinct = distinct first five answer lines; non-trivial = set-up accepted")
     chk.coverage["distribution"] = dist
     chk.coverage["rejected_by_stream"] = reject_by
